@@ -267,7 +267,13 @@ func Run(rep *hx.Report, props Props, tier string, sh hx.Shard, deadline time.Ti
 	switch {
 	case props.C02:
 		if thorough {
-			rep.Bound = "M=8: all programs of length 1..2 over 16 letters and length 3 over 8 letters alone (P 1..3, 2 offsets, every entry point); all ordered pairs of the 272 short programs x offsets 1..7 x P 1..3 x entry points x cycle limit 24, and x every cycle limit 1..6 at P=2; all triples of one-instruction programs x all offset pairs x P 1..2; all quadruples over 8 letters x P 1..3; all ordered pairs over 10 letters with process limits 5, 6, 7, 9, 17 and 40 cycles"
+			// other core sizes (odd, and one where programs cannot reach each other at once)
+			for _, m2 := range []uint64{5, 13} {
+				al2 := Alphabet(m2)
+				r.singles(m2, Programs(al2, 10, 2), [][2]uint64{{m2, m2}}, 20)
+				r.pairs(m2, Programs(al2, 8, 2), []uint64{1, 2, 4}, []uint64{20}, [][2]uint64{{m2, m2}}, false)
+			}
+			rep.Bound = "M in {5,13}: all programs of length 1..2 over 10 letters alone and all ordered pairs over 8 letters x every offset x P in {1,2,4}; M=8: all programs of length 1..2 over 16 letters and length 3 over 8 letters alone (P 1..3, 2 offsets, every entry point); all ordered pairs of the 272 short programs x offsets 1..7 x P 1..3 x entry points x cycle limit 24, and x every cycle limit 1..6 at P=2; all triples of one-instruction programs x all offset pairs x P 1..2; all quadruples over 8 letters x P 1..3; all ordered pairs over 10 letters with process limits 5, 6, 7, 9, 17 and 40 cycles, and under read/write limits (3,4) (4,3) (1,8) (8,2) (5,5)"
 			r.singles(M, append(Programs(alpha, 16, 2), Programs(alpha, 8, 3)[72:]...), full, 24)
 			p2 := Programs(alpha, 16, 2)
 			r.pairs(M, p2, []uint64{1, 2, 3}, []uint64{24}, full, true)
@@ -275,6 +281,7 @@ func Run(rep *hx.Report, props Props, tier string, sh hx.Shard, deadline time.Ti
 			r.triples(M, alpha, 16, []uint64{1, 2}, 16, full)
 			r.quads(M, alpha, 8, 12)
 			r.pairs(M, Programs(alpha, 10, 2), []uint64{5, 6, 7, 9, 17}, []uint64{40}, full, false)
+			r.pairs(M, Programs(alpha, 10, 2), []uint64{2}, []uint64{24}, [][2]uint64{{3, 4}, {4, 3}, {1, 8}, {8, 2}, {5, 5}}, false)
 		} else {
 			rep.Bound = "M=8: all programs of length 1..2 over 16 letters alone; all ordered pairs of them x offsets 1..7 x P 1..3 x cycle limit 16; all ordered pairs over 8 letters x every entry point x cycle limits 1..4 at P=2; all triples over 10 letters x all offset pairs at P in {1,2}; all quadruples over 6 letters; all ordered pairs over 7 letters with process limits 5, 6, 9"
 			p2 := Programs(alpha, 16, 2)
